@@ -23,11 +23,12 @@ BASES = {
           "G\tg1\ts2+\ts3+\t5\t*", "F\ts1\tr1+\t0\t5\t0\t5\t*",
           "O\to1\ts1+ s2+", "U\tu1\ts1 e2", "U\tu2\tu1 o1"],
  # gap listed in a set, two gaps on one end, two fragments, nested ordered groups
- "gfa2b": ["S\ts1\t10\t*", "S\ts2\t10\t*", "S\ts3\t10\t*",
+ # (the set arrives before the gap and the segment it lists)
+ "gfa2b": ["U\tu1\tg1 s3", "S\ts1\t10\t*", "S\ts2\t10\t*", "S\ts3\t10\t*",
            "E\te1\ts1+\ts2+\t5\t10$\t0\t5\t*", "E\te2\ts1+\ts2+\t6\t10$\t0\t4\t*",
            "G\tg1\ts1+\ts2+\t5\t*", "G\tg2\ts1+\ts3-\t7\t*",
            "F\ts1\tr1+\t0\t5\t0\t5\t*", "F\ts1\tr2-\t0\t5\t0\t5\t*",
-           "O\to1\ts1+ e1+ s2+", "O\to2\to1- s1-", "U\tu1\tg1 s3"],
+           "O\to1\ts1+ e1+ s2+", "O\to2\to1- s1-"],
 }
 
 NAMES = {
